@@ -2,7 +2,7 @@ package servicediscovery
 
 // Bounded stand-in (property C10, labelled bounded): the follower registry behind the leader's numbering - Add,
 // Remove, GetAll - whose GetAll contract is trusted (sorting through sort.Sort is outside the generator's reach).
-// Bound: 300 pseudo-random sequences of 1..25 Add / re-Add / Remove operations over 8 names with distinct join
+// Bound: 300 pseudo-random sequences of 1..25 readings, each after 1..3 Add / re-Add / Remove operations, over 8 names with distinct join
 // times. Oracle: after every operation GetAll returns exactly the registered names, each once, ordered by join
 // time; a re-registration replaces the connection held for that name.
 
@@ -33,14 +33,16 @@ func TestVerifBoundedRegistry(t *testing.T) {
 		sd := NewServiceDiscovery(&config.Dcp{}, EventBus.New()).(*serviceDiscovery)
 		model := map[string]*vfNopClient{}
 		for k, n := 0, 1+r.Intn(25); k < n; k++ {
-			name := names[r.Intn(len(names))]
-			if r.Intn(3) == 0 {
-				sd.Remove(name)
-				delete(model, name)
-			} else {
-				c := &vfNopClient{id: it*100 + k}
-				sd.Add(NewService(c, name, join[name]))
-				model[name] = c
+			for ops := 1 + r.Intn(3); ops > 0; ops-- { // several changes may happen between two readings of the registry
+				name := names[r.Intn(len(names))]
+				if r.Intn(3) == 0 {
+					sd.Remove(name)
+					delete(model, name)
+				} else {
+					c := &vfNopClient{id: it*1000 + k*10 + ops}
+					sd.Add(NewService(c, name, join[name]))
+					model[name] = c
+				}
 			}
 			var want []string
 			for n := range model {
